@@ -18,6 +18,8 @@ import itertools
 import numpy as np
 
 from harness import common
+from harness import c18_inline as INL
+from harness import c18_sharing as SH
 from harness import c18_traces as TR
 from harness import c18_trees as T
 from harness.common import cbool, clist, cstr
@@ -242,7 +244,7 @@ def _parse_bools(s):
 
 # ----------------------------------------------------------------------------- models B/C: traces
 
-REQ_T = ["OV.Graph.Syntax", "OV.Graph.Wf", "OV.Builder.Strings", "OV.Builder.Naming", "OV.Builder.Trace"]
+REQ_T = ["OV.Graph.Syntax", "OV.Graph.Sem", "OV.Graph.Wf", "OV.Builder.Strings", "OV.Builder.Naming", "OV.Builder.Trace", "OV.Builder.TraceCF"]
 
 K_REDEF = "C18:names:subgraph-value-redefines-outer-name"
 K_DISJ = "C18:names:disjoint-subgraphs-share-value-names"
@@ -308,7 +310,7 @@ def run_traces(ctx, bcfg):
     rng = ctx.rng
     n = 200 if ctx.tier == "quick" else 2500
     bc = "bcfg_fixed" if bcfg["shared_counter"] else "bcfg_pinned"
-    coq_cases, coq_meta, wf_meta, dup_info = [], [], [], []
+    coq_cases, coq_meta, wf_meta, dup_info, toy_expected, hyp_meta = [], [], [], [], [], []
     tot = _new_stats()
     cnt = {"traces": 0, "models": 0, "with_sub": 0, "with_fn": 0, "redefines": 0, "disjoint": 0, "ort_runs": 0,
            "node_names_repeated_across_graphs": 0, "inline_vs_call": 0}
@@ -370,6 +372,9 @@ def run_traces(ctx, bcfg):
                 wf_meta.append((t, mode, bool(dup_cross or rep["same_graph_dups"])))
                 coq_cases.append(TR.trace_case_lit(tr, info, proto))
                 coq_meta.append((t, mode))
+                toy = TR.toy_replay(tr, info)
+                toy_expected.append(toy)
+                hyp_meta.append((t, mode, bool(st["scan"]), bool(st["if"] or st["loop"]), bool(st["castlike"]), bool(dup_cross or rep["same_graph_dups"])))
                 dup_info.append((t, mode, rep, dict(replay_doc)) if dup_cross else None)
             # ---- semantics: onnxruntime (no optimisation) against the NumPy reading, on objects (duplicates renamed apart)
             if dup_cross or rep["same_graph_dups"]:
@@ -412,11 +417,15 @@ def run_traces(ctx, bcfg):
     for a in range(0, len(coq_cases), shard):
         bodies.append(f"Definition cases : list tcase := {clist(coq_cases[a:a + shard])}.\n"
                       f"Eval vm_compute in (tdisagreeing {bc} 0 cases).\n"
-                      "Eval vm_compute in (map (fun c => wf_graphb (tcase_graph c)) cases).\n")
+                      "Eval vm_compute in (map (fun c => wf_graphb (tcase_graph c)) cases).\n"
+                      f"Eval vm_compute in (map (tcase_hyps {bc}) cases).\n"
+                      f"Definition expected : list (option (list Z)) := {clist(toy_expected[a:a + shard], lambda x: 'None' if x is None else '(Some ' + clist(x, common.cz) + ')')}.\n"
+                      f"Eval vm_compute in (toy_disagreeing {bc} 0 (map (fun p => toy_of (fst p) (snd p)) (combine cases expected))).\n")
     res = ctx.coq_eval_shards(REQ_T, bodies, par=4)
-    disagree, wf_bad = [], []
+    disagree, wf_bad, toy_bad, hyp_bad = [], [], [], []
+    hyp_cnt = {"hold": 0, "hold_cf": 0, "hold_castlike": 0, "toy_read": 0, "toy_read_cf": 0}
     for k, (okc, vals, raw) in enumerate(res):
-        if not okc or len(vals) < 2:
+        if not okc or len(vals) < 4:
             ctx.tie_broken("correspondence", "modelBC:evaluation", raw[-1500:])
             continue
         dis = set(common.parse_nat_list(vals[0]))
@@ -437,6 +446,18 @@ def run_traces(ctx, bcfg):
                               dict(doc, dup=rep["redefines_visible"][:3]))
             else:
                 ctx.violation(K_DISJ, f"trace {t} ({mode}): value name {first[1]!r} is used for two values in disjoint subgraphs", dict(doc, dup=rep["disjoint_dups"][:3]))
+        for j, b in enumerate(_parse_bools(vals[2])):
+            t, mode, scan, cfl, castl, dups = hyp_meta[k * shard + j]
+            if b:
+                hyp_cnt["hold"] += 1
+                hyp_cnt["hold_cf"] += cfl
+                hyp_cnt["hold_castlike"] += castl
+            elif mode == "call" and not scan and not dups:
+                hyp_bad.append((t, mode))
+            if toy_expected[k * shard + j] is not None:
+                hyp_cnt["toy_read"] += 1
+                hyp_cnt["toy_read_cf"] += cfl
+        toy_bad += [coq_meta[k * shard + j] for j in common.parse_nat_list(vals[3])]
         for j, b in enumerate(_parse_bools(vals[1])):
             t, mode, dups = wf_meta[k * shard + j]
             if not b and not dups:
@@ -450,6 +471,38 @@ def run_traces(ctx, bcfg):
     ctx.obligation("correspondence B/C: graph (nodes, operands, value names, initializers, nested subgraphs) and node names built by the real "
                    f"GraphBuilder = Trace.v build ({bc}) on every trace", not disagree, f"{len(disagree)} disagreements")
     ctx.obligation("verified checker: wf_graphb holds on every serialized graph whose value names are distinct", not wf_bad)
+    for (t, mode) in toy_bad[:5]:
+        why = ""
+        try:
+            idx = coq_meta.index((t, mode))
+            okc, vals, raw = ctx.coq_eval(REQ_T, f"Definition c : tcase := {coq_cases[idx]}.\n"
+                                          f"Eval vm_compute in (let '(ins, tr, outs, g, _) := c in "
+                                          "(creplay Z toy_sem toy_truth toy_trip Z.of_nat toy_of_bool 5 toy_lit 3 tr (toy_args ins) outs, "
+                                          "eval_graph Z toy_sem toy_truth toy_trip Z.of_nat toy_of_bool 5 4 "
+                                          f"(toy_init (b_cache (fst (build_state {bc} ins tr)))) g (toy_args ins))).\n")
+            why = f" (creplay, eval_graph) = {vals[0][:300] if okc and vals else raw[-300:]}; harness reading {toy_expected[idx]};"
+        except Exception as e:  # noqa: BLE001
+            why = f" ({e})"
+        ctx.tie_broken("correspondence", "modelC:reading", why + f" trace {t} ({mode}): TraceCF.creplay under the toy kernels differs from the harness's reading of the "
+                       "trace, or eval_graph on the real graph differs from creplay")
+    for (t, mode) in hyp_bad[:5]:
+        why = ""
+        try:
+            idx = coq_meta.index((t, mode))
+            okc, vals, raw = ctx.coq_eval(REQ_T, f"Definition c : tcase := {coq_cases[idx]}.\n"
+                                          f"Eval vm_compute in (let '(ins, tr, _, _, _) := c in let sf := fst (build_state {bc} ins tr) in "
+                                          "(cf_trace tr, nodup_strb (all_defined sf), lits_okb (b_cache sf) (lits_calls tr), all_defined sf)).\n")
+            why = " components (cf_trace, names distinct, literals consistent, names) = " + (vals[0][:600] if okc and vals else raw[-300:])
+        except Exception as e:  # noqa: BLE001
+            why = f" ({e})"
+        ctx.tie_broken("correspondence", "modelC:hypotheses", why + f" trace {t} ({mode}): cf_hypsb (hypotheses of C18_build_computes_trace_cf_checked) is false on a trace "
+                       "without Scan whose real graph has pairwise distinct names")
+    ctx.obligation("correspondence C: TraceCF.creplay (toy kernels over Z) = the harness's own reading of every trace, and = eval_graph on the graph the real "
+                   "GraphBuilder built", not toy_bad, f"{len(toy_bad)} disagreements")
+    ctx.obligation("hypotheses of C18_build_computes_trace_cf_checked (cf_hypsb) hold on every call-mode trace without Scan", not hyp_bad)
+    ctx.cover(traces_cf_hypotheses_hold=hyp_cnt["hold"], traces_cf_hypotheses_hold_with_if_or_loop=hyp_cnt["hold_cf"],
+              traces_cf_hypotheses_hold_with_castlike=hyp_cnt["hold_castlike"], traces_toy_reading_defined=hyp_cnt["toy_read"],
+              traces_toy_reading_defined_with_if_or_loop=hyp_cnt["toy_read_cf"])
     ctx.cover(traces=cnt["traces"], models_built=cnt["models"], traces_with_subgraphs=cnt["with_sub"], traces_with_functions=cnt["with_fn"],
               trace_steps=tot["steps"], trace_max_depth=tot["depth"], trace_ops=len(tot["ops"]), trace_if=tot["if"], trace_loop=tot["loop"], trace_scan=tot["scan"],
               trace_steps_with_literals_in_heterogeneous_variadic=tot["hetero_lit"], trace_steps_with_literals_in_homogeneous_variadic=tot["homo_lit"],
@@ -572,10 +625,12 @@ def run(ctx):
     ctx.check_props()
     cfg = probe_cfg(ctx)
     run_trees(ctx, cfg)
+    SH.run_sharing(ctx, cfg)
     bcfg = probe_bcfg(ctx)
     replay_subgraph_witness(ctx, bcfg)
     run_traces(ctx, bcfg)
     run_inline_args(ctx)
+    INL.run_inline(ctx)
     ctx.cover(rule="B/C: random traces over 62 operators + If/Loop/Scan subgraph bodies (depth <= 2; Loop/Scan states given as tensors and as "
                    "Python literals int/float/bool/list at every position; literals at every position of Max/Min/Sum/Mean/Concat next to "
                    "float and int64 tensors) + op.call/op.call_inline of script and IR "
